@@ -250,6 +250,14 @@ def fillRange (g : Grid α) (mn sp : Pos) (f : Pos → α) : Except Fault (Grid 
   let ps ← posRange mn sp
   ps.foldlM (fun g p => g.setUnsafe p (f p)) g
 
+/-- `grid::fill(grid, function)` with a function that reads the grid being filled (a reference to one of its own
+    cells): every call sees the cells already overwritten by the earlier iterations -/
+def fillDep (g : Grid α) (f : Grid α → Pos → Except Fault α) : Except Fault (Grid α) := do
+  let ps ← posRange (zeros g.size) g.size
+  ps.foldlM (fun g p => do
+    let x ← f g p
+    g.setUnsafe p x) g
+
 /-- `object(static_row(…), static_row(…)…)` (two-dimensional grids only): the cells are `array::join` of the rows in
     the order given, `size_ = (row length of the first row, number of rows)`; equal row lengths are a `static_assert` -/
 def mkRows (r1 : List α) (rs : List (List α)) : Grid α :=
@@ -278,6 +286,7 @@ structure Slot (α : Type) where
 
 /-- special-member operations between numbered objects -/
 inductive RegOp where
+  | defaultCtor (dst : Nat)     -- a new empty object `object()` replaces slot `dst`
   | copyCtor (dst src : Nat)    -- a new object `object(slot[src])` replaces slot `dst`
   | moveCtor (dst src : Nat)    -- a new object `object(std::move(slot[src]))` replaces slot `dst`
   | copyAssign (dst src : Nat)  -- `slot[dst] = slot[src]`, also with `dst = src`
@@ -286,9 +295,13 @@ inductive RegOp where
   | swapFree (a b : Nat)        -- `swap(slot[a], slot[b])`
   deriving Repr, DecidableEq
 
-/-- one special-member call.  `none`: not a legal line (an index without object, a constructor from the object itself,
+/-- one special-member call between objects of static size `n`.  `none`: not a legal line (an index without object, a constructor from the object itself,
     or a read of a moved-from object, whose value is unspecified) -/
-def regStep {α : Type} (st : List (Slot α)) : RegOp → Option (List (Slot α))
+def regStep {α : Type} (n : Nat) (st : List (Slot α)) : RegOp → Option (List (Slot α))
+  | .defaultCtor d =>
+    match st[d]? with
+    | some _ => some (st.set d ⟨Grid.empty n, false⟩)
+    | none => none
   | .copyCtor d s =>
     if d == s then none else
     match st[s]?, st[d]? with
@@ -315,9 +328,9 @@ def regStep {α : Type} (st : List (Slot α)) : RegOp → Option (List (Slot α)
     | _, _ => none
 
 /-- a history of special-member calls -/
-def regRun {α : Type} (st : List (Slot α)) : List RegOp → Option (List (Slot α))
+def regRun {α : Type} (n : Nat) (st : List (Slot α)) : List RegOp → Option (List (Slot α))
   | [] => some st
-  | op :: ops => (regStep st op).bind fun st' => regRun st' ops
+  | op :: ops => (regStep n st op).bind fun st' => regRun n st' ops
 
 /-! ### comparison (`comparison.hpp`) -/
 
